@@ -195,6 +195,11 @@ func read[EntityT entity.Interface](def Definition, wrapper func(e *Entity) Enti
 		}
 	}
 
+	// An entity without any operation has no id and can't be used
+	if opsCount == 0 {
+		return *new(EntityT), fmt.Errorf("entity has no operations")
+	}
+
 	// The clocks are fine, we witness them
 	for _, opp := range oppMap {
 		err = repo.Witness(fmt.Sprintf(creationClockPattern, def.Namespace), opp.CreateTime)
@@ -242,11 +247,6 @@ func read[EntityT entity.Interface](def Definition, wrapper func(e *Entity) Enti
 		if pack.EditTime > editTime {
 			editTime = pack.EditTime
 		}
-	}
-
-	// An entity without any operation has no id and can't be used
-	if len(ops) == 0 {
-		return *new(EntityT), fmt.Errorf("entity has no operations")
 	}
 
 	return wrapper(&Entity{
